@@ -78,6 +78,8 @@ theorem moveaxis_roundtrip (a : Arr) (hs : a.shape ≠ []) (hd : a.data.length =
 
 example : (⟨"f8", [2, 3], [1, 2, 3, 4, 5, 6]⟩ : Arr).data.length = prod [2, 3] := by decide
 
+def exGridPickle : Grid := ⟨.cartesian, .regular [.float 1] [3] [.float 0], .null⟩
+
 /-! ## dictionary round trips -/
 
 theorem coords_dict_roundtrip (c : Coords) (h : c.WellFormed) :
@@ -121,8 +123,36 @@ theorem field_dict_roundtrip (f : Field) (h : f.grid.Ok) : Field.fromDict f.toDi
   simp [Field.toDict, Field.fromDict, Tree.get, lookup, asArr, bind, Except.bind,
     grid_dict_roundtrip g h]
 
-/-- `Field.__getstate__` / `__setstate__` (pickle) reproduce the field. -/
-theorem field_pickle_roundtrip (f : Field) : Field.setState f.getState = f := rfl
+/-- `.T.T = id`: reversing all axes twice is the identity on C-order data, for every shape. -/
+theorem transposeAll_transposeAll (dt : String) (s : List Nat) (d : List Rat)
+    (hd : d.length = prod s) :
+    (Arr.transposeAll ⟨dt, s.reverse, (Arr.transposeAll ⟨dt, s, d⟩).data⟩).data = d :=
+  transposeAll_involutive dt s d hd
+
+/-- `Field.__getstate__` / `__setstate__` (pickle, deepcopy) reproduce the field for every tensor
+shape and for both memory layouts `ndarray.__reduce__` distinguishes: C-ordered (incl. strided
+views) and Fortran-ordered data (`Field(xy.T, grid)`). -/
+theorem field_pickle_roundtrip (f : Field) (l : Layout)
+    (h : f.values.data.length = prod f.values.shape) : Field.setState (f.getState l) = f := by
+  obtain ⟨⟨dt, s, d⟩, g⟩ := f
+  cases l with
+  | c => rfl
+  | f =>
+    simp only at h
+    simp [Field.getState, Field.setState, Arr.raw, transposeAll_involutive dt s d h]
+
+example : (⟨"f8", [2, 3], [1, 2, 3, 4, 5, 6]⟩ : Arr).data.length = prod [2, 3] := by decide
+
+/-- The seeded class: a `__getstate__` that sets the Fortran flag from the memory layout but emits
+C-order bytes returns, for the Fortran-ordered vector field `[[1,2,3],[4,5,6]]`, a field of the
+right shape, dtype and grid with permuted values; C-ordered data is unaffected. -/
+theorem field_pickle_bad_counterexample :
+    (Field.setState (Field.getStateBad ⟨⟨"f8", [2, 3], [1, 2, 3, 4, 5, 6]⟩, exGridPickle⟩ .f)).values
+      = ⟨"f8", [2, 3], [1, 3, 5, 2, 4, 6]⟩ ∧
+    ∀ f : Field, Field.setState (f.getStateBad .c) = f := by
+  constructor
+  · decide +kernel
+  · intro f; rfl
 
 theorem csc_dict_roundtrip (c : Csc) : Csc.fromDict c.toDict = .ok c := by
   obtain ⟨d, i, p, s⟩ := c
